@@ -71,12 +71,12 @@ def table(locale, normalize):
     if k in _tables:
         return _tables[k]
     inf = data.info(locale)
-    voc = data.vocabulary(inf, normalize)
+    voc = data.vocabulary(inf, False)  # single meaning is judged on the spelling as listed (see c05.names_for)
     out = []
     seen = set()
     for key, phrases in inf.get("relative-type", {}).items():
         for ph in phrases:
-            w = data.nfkd(ph.lower()) if normalize else ph.lower()
+            w = ph.lower()
             if (key, w) in seen:
                 continue
             seen.add((key, w))
@@ -128,8 +128,8 @@ def check_case(case):
         phrase = case["phrase"]
         canonical = key.replace("\\1", n.replace(",", "."))
         # single meaning of the instantiated phrase
-        voc = data.vocabulary(data.info(locale), normalize)
-        w = data.nfkd(phrase.lower()) if normalize else phrase.lower()
+        voc = data.vocabulary(data.info(locale), False)
+        w = phrase.lower()
         if w in voc and voc[w] != {"rel:" + key}:
             return {"ok": True, "skip": "instantiated phrase is also a vocabulary word", "cls": cls}
         if _pattern_keys(locale, normalize, phrase) != {key}:
